@@ -244,6 +244,7 @@ class Expr2Mixin:
 
     # ------------------------------------------------------------------ iteration sources
     def iterable(self, st, v) -> Iterable_:
+        from .builtins_ import VEnumerate, VZip, VGroups
         if isinstance(v, (VListRef, VList)):
             l = st.lst(v)
             return Iterable_(l.n, lambda k: l.at(k))
@@ -393,8 +394,11 @@ class Expr2Mixin:
                 f = z3.Function(f'enum_value:{base.cls}', z3.IntSort(), Ref)
                 yield st, VObj(f(base.t), ('str',))
                 return
-        if isinstance(base, VTuple) and base.kind and getattr(base, 'names', None):
-            pass
+        if isinstance(base, VStr):
+            if attr == 'join':
+                yield st, VFunc('builtin', ('str.join',))
+                return
+            raise Unsupported(f"str method {attr}")
         if not isinstance(base, VObj):
             raise Unsupported(f"attribute {attr} of {type(base).__name__}")
         # group the possible classes by how the attribute resolves
